@@ -28,9 +28,10 @@ def run(chk, tier):
             totals["S2"] = totals.get("S2", 0) + SR.s2_guarded_insertion(chk, db, rq, funcs, needs_full)
             totals["S3"] = totals.get("S3", 0) + SR.s3_erase_by_key(chk, db, rq, funcs)
             totals["S4"] = totals.get("S4", 0) + SR.s4_lookup(chk, db, rq, funcs)
+            totals["S7"] = totals.get("S7", 0) + SR.s7_insert_result(chk, db, rq, funcs)
         totals["S5"] = totals.get("S5", 0) + SR.s5_iterator_reuse(chk, funcs)
         totals["S6"] = totals.get("S6", 0) + SR.s6_handover(chk, db, rq, funcs)
-    floors = {"S1": 26, "S2": 2, "S3": 2, "S4": 6, "S5": 3, "S6": 1}
+    floors = {"S1": 26, "S2": 2, "S3": 2, "S4": 6, "S5": 3, "S6": 1, "S7": 2}
     for r, fl in floors.items():
         if totals.get(r, 0) < fl:
             chk.analysis_broken("%s: only %d instances (floor %d)" % (r, totals.get(r, 0), fl))
